@@ -4,7 +4,7 @@ import json, os, re, shutil
 import vlib
 
 KEEP = {"sess_start", "recv", "reject", "conn_add", "known_add", "established", "conn_del", "known_del", "sess_end",
-        "ru_self", "ru_seen", "ru_dupnotice", "ru_apply", "flood", "mk_update", "rebuild", "shutdown", "h_status"}
+        "ru_self", "ru_seen", "ru_dupnotice", "ru_apply", "flood", "mk_update", "rebuild", "shutdown", "h_status", "seen_expire"}
 
 
 def _num(x, scale):
@@ -145,6 +145,8 @@ def normalise(raw_events):
                                 "known": _known(e.get("known"), scale)})
                 elif ev == "shutdown":
                     out.append({"ev": ev})
+                elif ev == "seen_expire":
+                    out.append({"ev": ev, "id": e["id"]})
                 elif ev == "h_status":
                     out.append({"ev": ev, "conns": _costs(e.get("conns"), scale), "table": dict(e.get("table") or {}),
                                 "costs": _costs(e.get("costs"), scale), "known": _known(e.get("known"), scale)})
@@ -307,6 +309,8 @@ def normalise(raw_events):
                                 "known": _known(e.get("known"), scale)})
                 elif ev == "shutdown":
                     out.append({"ev": ev})
+                elif ev == "seen_expire":
+                    out.append({"ev": ev, "id": e["id"]})
                 elif ev == "h_status":
                     out.append({"ev": ev, "conns": _costs(e.get("conns"), scale), "table": dict(e.get("table") or {}),
                                 "costs": _costs(e.get("costs"), scale), "known": _known(e.get("known"), scale)})
